@@ -144,10 +144,17 @@ def alu_scalar(code, a, b, bits):
             # sound weakening for proofs: the product of two non-constant
             # values is an uninterpreted function (arguments in a canonical
             # order); see vc/bvutil.py
-            from ..bvutil import mul_uf
-            x, y = sorted((simp(a), simp(b)), key=lambda t: t.sexpr())
-            return mul_uf(bits)(x, y)
+            from ..bvutil import ac_mul
+            return ac_mul(bits, [a, b])
         return a * b
+    if code in (isa.DIV, isa.MOD) and ABSTRACT_MUL[0] and \
+            not (z3.is_bv_value(simp(a)) and z3.is_bv_value(simp(b))):
+        # unsigned quotient / remainder as uninterpreted functions (sound
+        # weakening for proofs); the by-zero rules of the ISA stay explicit
+        from ..bvutil import udiv_uf, urem_uf
+        if code == isa.DIV:
+            return z3.If(b == zero, zero, udiv_uf(bits)(a, b))
+        return z3.If(b == zero, a, urem_uf(bits)(a, b))
     if code == isa.DIV: return z3.If(b == zero, zero, z3.UDiv(a, b))
     if code == isa.MOD: return z3.If(b == zero, a, z3.URem(a, b))
     if code == isa.OR: return a | b
